@@ -455,11 +455,15 @@ func ReadPem(pemBytes []byte) (PemFileContent, error) {
 	var err error
 	var pemFileContent PemFileContent
 
+	//a block that can't be used must not hide the blocks after it,
+	//so the first error is kept and returned with everything that could be read
+	var firstErr error
+
 	for {
 		p, pemBytes = pem.Decode(pemBytes)
 		if p == nil {
-			if len(pemBytes) != 0 {
-				return pemFileContent, errors.New("can't decode data as PEM")
+			if len(pemBytes) != 0 && firstErr == nil {
+				firstErr = errors.New("can't decode data as PEM")
 			}
 
 			break
@@ -470,7 +474,10 @@ func ReadPem(pemBytes []byte) (PemFileContent, error) {
 			cert := &Certificate{}
 			_, err = asn1.Unmarshal(p.Bytes, cert)
 			if err != nil {
-				return pemFileContent, err
+				if firstErr == nil {
+					firstErr = err
+				}
+				continue
 			}
 			pemFileContent.Certificate = cert
 
@@ -478,21 +485,28 @@ func ReadPem(pemBytes []byte) (PemFileContent, error) {
 			req := &CertificateRequest{}
 			_, err = asn1.Unmarshal(p.Bytes, req)
 			if err != nil {
-				return pemFileContent, err
+				if firstErr == nil {
+					firstErr = err
+				}
+				continue
 			}
 			pemFileContent.Request = req
 
 		default:
 			if strings.Contains(p.Type, "PRIVATE KEY") {
-				pemFileContent.PrivateKey, err = ParsePKCS8PrivateKey(p.Bytes)
+				key, err := ParsePKCS8PrivateKey(p.Bytes)
 				if err != nil {
-					return pemFileContent, err
+					if firstErr == nil {
+						firstErr = err
+					}
+					continue
 				}
+				pemFileContent.PrivateKey = key
 			}
 		}
 	}
 
-	return pemFileContent, nil
+	return pemFileContent, firstErr
 }
 
 // Syntactic sugar to yield a [config.IssuerContext] from a
